@@ -507,6 +507,7 @@ func permuteSpec(rng *rand.Rand, s *Spec) *Spec {
 
 func runC06(c *eng.Ctx) {
 	cr := &caseRunner{c: c, prop: "C06"}
+	defer func() { RunSameConstructor(c, "C06", cr.next) }()
 	alloc := func() (int, bool) { return cr.next() }
 	graphx.RunSmallDigraphs(c, "C06", alloc)
 	graphx.RunRandomDigraphs(c, "C06", alloc, c.Pick(300, 10000))
